@@ -43,8 +43,10 @@ class FrameSpec:
 
 
 def random_spec(rng, max_rows=5, max_cols=6, dtypes=None, row_kinds=None, col_kinds=None, missing_ok=True,
-                min_rows=0, min_cols=0, name_pool=(None, 'n', 7, ('t', 1))):
+                min_rows=0, min_cols=0, name_pool=(None, 'n', 7, ('t', 1)), homog_p=0.0):
     dtypes = dtypes or V.COMMON
+    if homog_p and rng.random() < homog_p:
+        dtypes = [rng.choice(dtypes)]  # one dtype throughout: the single wide 2-D block becomes a possible layout
     row_kinds = row_kinds or ['auto', 'int', 'str', 'negint', 'IndexDate', 'hier2', 'mixed', 'float']
     col_kinds = col_kinds or ['str', 'int', 'auto', 'hier2', 'negint', 'mixed']
     nr = rng.randint(min_rows, max_rows)
